@@ -52,6 +52,7 @@ type PathResult struct {
 	Trail      []uint64
 	Instrs     int
 	Decisions  int // solver-decided (non-forced) decisions on this path
+	Forks      int
 	Forced     int
 	Covers     map[string]bool
 	Funcs      map[string]int
@@ -81,6 +82,7 @@ type Run struct {
 	trail   []uint64
 	newWork [][]uint64
 	nDecided, nForced int
+	nForks int // two-sided decisions on this path (including the inherited prefix)
 
 	globals  map[*ssa.Global]*value
 	initDone map[*ssa.Package]bool
@@ -191,10 +193,12 @@ func (r *Run) branch(c *Term) bool {
 		v := r.nextRecorded()
 		switch v {
 		case 1:
+			r.nForks++
 			r.assertPC(c)
 			r.decidedCache[c] = 1
 			return true
 		case 0:
+			r.nForks++
 			r.assertPC(r.ts.Not(c))
 			r.decidedCache[c] = 0
 			return false
@@ -229,6 +233,7 @@ func (r *Run) branch(c *Term) bool {
 		return true
 	}
 	r.nDecided++
+	r.nForks++
 	r.pushSibling(0)
 	r.record(1)
 	r.assertPC(c)
@@ -241,6 +246,7 @@ func (r *Run) choice(n int) int {
 	if n <= 1 {
 		return 0
 	}
+	r.nForks++
 	if r.inPrefix() {
 		return int(r.nextRecorded())
 	}
